@@ -522,6 +522,9 @@ class Buffer:
         self.yank_nth_arg_state = None
         self.document_before_paste = None
         self.selection_state = None
+        # (The multiple cursors are indexes in the previous text. Key bindings
+        # that keep them assign the new positions after setting the text.)
+        self.multiple_cursor_positions = []
         self.suggestion = None
         self.preferred_column = None
 
